@@ -46,6 +46,9 @@ func (ep *episode) prepareEval(jr *jobRun) error {
 	npts := max(j.Points, 2)
 	r := simcore.NewRNG(j.CoordSeed)
 	poolN := max(2, npts*2/3)
+	if j.Fresh {
+		poolN = callers * npts
+	}
 	var pool2 []v2.Vec
 	var pool3 []v3.Vec
 	if s2 != nil {
@@ -57,6 +60,8 @@ func (ep *episode) prepareEval(jr *jobRun) error {
 	// lattice points (by the scheduler goroutine, never parked). Half of the
 	// pool then revisits early warm-up points, half is new.
 	if j.Warm > 0 {
+		hooksOff.Store(true)
+		defer hooksOff.Store(false)
 		side := 1
 		for side*side < j.Warm {
 			side++
@@ -67,7 +72,7 @@ func (ep *episode) prepareEval(jr *jobRun) error {
 			for i := 0; i < j.Warm; i++ {
 				p := v2.Vec{X: bb.Min.X + sz.X*float64(i%side)/float64(side), Y: bb.Min.Y + sz.Y*float64(i/side)/float64(side)}
 				s2.Evaluate(p)
-				if i < poolN/2 {
+				if i < poolN/2 && !j.Fresh {
 					pool2[i] = p
 				}
 			}
@@ -77,7 +82,7 @@ func (ep *episode) prepareEval(jr *jobRun) error {
 			for i := 0; i < j.Warm; i++ {
 				p := v3.Vec{X: bb.Min.X + sz.X*float64(i%side)/float64(side), Y: bb.Min.Y + sz.Y*float64(i/side)/float64(side), Z: bb.Min.Z + sz.Z*float64(i%7)/7}
 				s3.Evaluate(p)
-				if i < poolN/2 {
+				if i < poolN/2 && !j.Fresh {
 					pool3[i] = p
 				}
 			}
@@ -90,6 +95,9 @@ func (ep *episode) prepareEval(jr *jobRun) error {
 		results[c] = make([]float64, npts)
 		for k := range seq[c] {
 			seq[c][k] = r.Intn(poolN)
+			if j.Fresh && r.Intn(4) != 0 {
+				seq[c][k] = c*npts + k
+			}
 		}
 	}
 	jr.res.Sig = "eval/" + j.Model
@@ -200,6 +208,10 @@ func planC10(tier string, root *simcore.RNG) *plan {
 					Env: Env{GOMAXPROCS: pick(r, []int{1, 4, 16}), CPUs: 16, Race: true}, Note: "many-points"}
 				if sc.Sched.Policy == "fifo" || sc.Sched.Policy == "lifo" {
 					sc.Sched.Policy = "uniform"
+					if r.Intn(2) == 0 {
+						m := 3 + r.Intn(6)
+						sc.Sched.Policy, sc.Sched.Victim = "starve", fmt.Sprintf("site:%d:%d", m, r.Intn(m))
+					}
 				}
 				pl.scenarios = append(pl.scenarios, sc)
 			}
@@ -230,6 +242,41 @@ func planC10(tier string, root *simcore.RNG) *plan {
 					Sites: map[string]uint32{"caller": 1}, Sched: genSched(r, nil),
 					Env: Env{GOMAXPROCS: pick(r, []int{1, 4, 16}), CPUs: 16, Race: true}, Note: "long-history"}
 				pl.scenarios = append(pl.scenarios, sc)
+			}
+			// a history that stops just short of a power of two, so that a size or
+			// read-count threshold is crossed by the concurrent callers, not before
+			if stateful {
+				// mutable state behind Evaluate (the 2D cache) gets several repetitions per
+				// threshold, tables that are read-only after construction one
+				mutable := false
+				for _, c := range e.Ctors {
+					mutable = mutable || c == "sdf.Cache2D"
+				}
+				reps := 1
+				if mutable {
+					reps = 6
+				}
+				base := []int{1 << 8, 1000, 1 << 10, 1 << 12, 10000, 1 << 14, 1 << 16, 100000, 1 << 18}
+				if tier == "thorough" {
+					reps *= 6
+					base = append(base, 1<<9, 1<<11, 1<<13, 1<<15, 1<<17, 1<<19, 1<<20, 1000000)
+				}
+				var ks []int
+				for rep := 0; rep < reps; rep++ {
+					ks = append(ks, base...)
+				}
+				for _, k := range ks {
+					r := root.Fork()
+					j := Job{ID: 1, Kind: "eval", Model: name, Callers: 4 + r.Intn(5), Points: 24 + r.Intn(16), CoordSeed: r.Uint64(), Warm: k - 8 - r.Intn(24), Fresh: r.Intn(8) != 0}
+					sc := &Scenario{Prop: "C10", Family: "eval", Seed: r.Uint64(), Groups: [][]Job{{j}},
+						Sites: map[string]uint32{"caller": 1, "auto": 1}, Sched: Sched{Policy: pick(r, []string{"uniform", "uniform", "uniform", "uniform", "uniform", "pct", "burst"}), Seed: r.Uint64(), D: 2},
+						Env: Env{GOMAXPROCS: pick(r, []int{1, 4, 16}), CPUs: 16, Race: r.Intn(2) == 0}, Note: "threshold-history"}
+					if r.Intn(4) == 0 {
+						m := 3 + r.Intn(6)
+						sc.Sched.Policy, sc.Sched.Victim = "starve", fmt.Sprintf("site:%d:%d", m, r.Intn(m))
+					}
+					pl.scenarios = append(pl.scenarios, sc)
+				}
 			}
 		}
 		if ni%renderEvery == rot && !e.Heavy {
